@@ -782,13 +782,13 @@ Section Raw.
     pose proof Hids as Hids'. rewrite Forall_forall in Hids'. destruct (Hids' _ Har) as [A _]. pose proof (asc_NoDup _ _ _ A) as ND.
     assert (Did : d_id d = id) by reflexivity. rewrite Did.
     set (cond := negb (mem id (ids_of (last ann dar))) && forallb (fun s => negb (tleb (d_start s) (Fin (d_end d)))) (successors G id)).
-    assert (Nil : teqb (Fin (d_end d)) (Fin (b_of ar)) = false \/ cond = false ->
-                  map snd (filter (fun te : tevent R => teqb (Fin (fst te)) (Fin (b_of ar))) (if cond then [(d_end d, EMarg id)] else [])) = []).
-    { intros [K|K]; [|now rewrite K]. destruct cond; auto. cbn [filter fst]. now rewrite K. }
+    match goal with |- ?l = _ => set (lhs := l) end.
+    assert (Nil : teqb (Fin (d_end d)) (Fin (b_of ar)) = false \/ cond = false -> lhs = []).
+    { unfold lhs. intros [K|K]; [|now rewrite K]. destruct cond; auto. cbn [filter fst]. now rewrite K. }
     assert (Later : forall x, In x Q -> inA id x = true -> teqb (Fin (d_end d)) (Fin (b_of ar)) = false).
     { intros x Hx M. assert (Hx' : In x ann) by (rewrite E; apply in_or_app; right; now right).
       destruct (deme_span id x L Hx' M) as [_ S2]. fold d in S2.
-      assert (C' : achain top ((P ++ [ar]) ++ Q)) by (rewrite <- app_assoc; rewrite <- E; exact Hchain).
+      assert (C' : achain top ((P ++ [ar]) ++ Q)) by (rewrite <- app_assoc; cbn [app]; rewrite <- E; exact Hchain).
       destruct (chain_split _ _ _ ar x C') as (_ & O & _); [apply in_or_app; right; now left|auto|].
       apply tlt_neq1. eapply tleb_tlt_trans; eauto. }
     destruct (mem id (ids_of ar)) eqn:Min.
@@ -811,7 +811,7 @@ Section Raw.
       apply Nil. right. unfold cond. rewrite E, last_app_cons. cbn [last]. apply mem_In in Min. now rewrite Min. }
     destruct (Hstep P ar nx Q' E) as (next & rb & Enx & An & Kr). destruct Kr as (Kev & _).
     assert (Hnx : In nx ann) by (rewrite E; apply in_or_app; right; right; now left).
-    assert (Stay : In id (ids_of nx) -> map snd (filter (fun te : tevent R => teqb (Fin (fst te)) (Fin (b_of ar))) (if cond then [(d_end d, EMarg id)] else [])) = []).
+    assert (Stay : In id (ids_of nx) -> lhs = []).
     { intros Hin. apply Nil. left. apply (Later nx); [now left|]. now apply mem_In. }
     assert (Ends : ~ In id (ids_of nx) -> d_end d = b_of ar /\ mem id (ids_of (last ann dar)) = false).
     { intros Hni. assert (M : inA id ar = true) by now apply mem_In.
@@ -861,6 +861,7 @@ Section Raw.
     - now apply Stay.
     - destruct Kev as [K2 Kk]. unfold nth1. destruct (Nat.eqb id (nth (k - 1) (ids_of ar) 0%nat)) eqn:Eq.
       + apply Nat.eqb_eq in Eq. destruct Ends as [Ed Ms]. { rewrite Eq. apply remove_nth_self; auto. lia. }
+        change (mem id (ids_of (last ann dar)) = false) in Ms.
         assert (Cd : cond = true).
         { unfold cond. rewrite Ms. cbn [negb andb]. apply forallb_forall. intros s Hs. unfold successors in Hs. apply filter_In in Hs as [Hs Ma].
           rewrite g_demes_raw in Hs. apply in_map_iff in Hs as (j & <- & Hj). apply in_seq in Hj.
@@ -876,13 +877,161 @@ Section Raw.
             -- rewrite Forall_forall in Hstart. specialize (Hstart _ Har). rewrite Forall_forall in Hstart. rewrite (Hstart _ Hb).
                apply (achain_in _ _ ar Hchain Har).
             -- apply in_app_or in Hb as [Hb|Hb]; [rewrite Enx in Hb; cbn [annotate ar_births] in Hb; rewrite Eev in Hb; destruct Hb|].
-               exfalso. pose proof (Hgone P ar nx Q' id E Min) as Hg. rewrite Enx in Hg. unfold ids_of at 2 in Hg.
-               cbn [annotate ar_stage sg_ids] in Hg. rewrite Eev in Hg. cbn [ev_ids] in Hg.
-               assert (Hni : ~ In id (remove_nth (k - 1) (ids_of ar))) by (rewrite Eq; apply remove_nth_self; auto; lia).
+               exfalso.
+               assert (Hni : ~ In id (ids_of nx)).
+               { rewrite Enx, annotate_ids, Eev. cbn [ev_ids]. rewrite Eq. apply remove_nth_self; auto; lia. }
+               pose proof (Hgone P ar nx Q' id E Min) as Hg.
                specialize (Hg Hni). apply in_flat_map in Hb as (y & Hy & Hb). rewrite Forall_forall in Hg. specialize (Hg _ Hy).
                rewrite Forall_forall in Hg. apply (Hg _ Hb). exact Ma. }
-        rewrite Cd. cbn [filter fst]. rewrite Ed, teqb_refl. reflexivity.
+        unfold lhs. rewrite Cd. cbn [filter fst]. rewrite Ed, teqb_refl. reflexivity.
       + apply Nat.eqb_neq in Eq. apply Stay. now apply remove_nth_other.
     - destruct Kev.
   Qed.
+
+  Lemma flat_map_single (x n' : nat) : (x < n')%nat ->
+    flat_map (fun id => if Nat.eqb id x then [EMarg (F:=R) id] else []) (seq 0 n') = [EMarg x].
+  Proof.
+    intros L. replace n' with (x + S (n' - S x))%nat by lia. rewrite seq_app, flat_map_app. cbn [seq flat_map plus].
+    rewrite Nat.eqb_refl. rewrite !flat_map_nil; auto.
+    - intros y Hy. apply in_seq in Hy. destruct (Nat.eqb y x) eqn:E; auto. apply Nat.eqb_eq in E. lia.
+    - intros y Hy. apply in_seq in Hy. destruct (Nat.eqb y x) eqn:E; auto. apply Nat.eqb_eq in E. lia.
+  Qed.
+
+  Lemma marg_at P ar Q : ann = P ++ ar :: Q ->
+    events_at (marg_events G (ids_of (last ann dar))) (Fin (b_of ar)) = marg_expected ar Q.
+  Proof.
+    intros E. unfold events_at, marg_events. rewrite g_demes_raw, flat_map_map, filter_flat_map, map_flat_map.
+    rewrite (flat_map_ext_in' _ (marg_one ar Q)).
+    2:{ intros id Hid. apply in_seq in Hid. apply (marg_contrib P ar Q id E). lia. }
+    unfold marg_one, marg_expected. destruct Q as [|nx Q']; [apply flat_map_nil; auto|].
+    destruct (ar_ev nx) eqn:Eev; try (apply flat_map_nil; auto; fail).
+    destruct (Hstep P ar nx Q' E) as (next & rb & Enx & An & Kr). rewrite Enx in Eev. cbn [annotate ar_ev] in Eev.
+    destruct Kr as (Kev & _). rewrite Eev in Kev. destruct Kev as [_ Kk].
+    apply flat_map_single. assert (Har : In ar ann) by (rewrite E; apply in_or_app; right; now left).
+    pose proof Hids as Hids'. rewrite Forall_forall in Hids'. destruct (Hids' _ Har) as [A _].
+    assert (Hin : In (nth1 k (ids_of ar)) (ids_of ar)) by (apply nth_In; lia). apply (asc_In _ _ _ _ A) in Hin. lia.
+  Qed.
 End Raw.
+
+(** ** the hypotheses hold for the annotated log *)
+Lemma scan_starts l : forall next ids,
+  Forall (fun ar => Forall (fun b => b_start b = a_of ar) (ar_births ar)) (scan next ids l)
+  /\ Forall (fun ar => Forall (fun p => Fin (p_time p) = a_of ar) (ar_pulses ar)) (scan next ids l)
+  /\ Forall (fun ar => Forall (fun te => Fin (fst te) = a_of ar) (ar_evs ar)) (scan next ids l)
+  /\ Forall (fun ar => exists K, (K < 5)%nat /\ Forall (fun te => ev_kind te = K) (ar_evs ar)) (scan next ids l).
+Proof.
+  induction l as [|rb l IH]; intros next ids; [repeat split; constructor|].
+  destruct (IH (ar_next (annotate next ids rb)) (sg_ids (ar_stage (annotate next ids rb)))) as (I1 & I2 & I3 & I4).
+  cbn [scan]. repeat split; constructor; auto; cbn [annotate ar_births ar_pulses ar_evs]; unfold a_of; cbn [annotate ar_stage sg_a].
+  - apply ev_births_start.
+  - destruct (r_ev (fst rb)); cbn [ev_pulses]; auto.
+  - destruct (r_ev (fst rb)); cbn [ev_events]; auto. apply Forall_forall. intros te Hte. apply in_map_iff in Hte as (pc & <- & _). reflexivity.
+  - destruct (r_ev (fst rb)) as [|props| | |]; cbn [ev_events].
+    + exists 4%nat. split; [lia|]. apply Forall_forall. intros te Hte. apply in_map_iff in Hte as (pc & <- & _). reflexivity.
+    + destruct (map (fun i => nth i ids 0%nat) (nz_idx props)) as [|p [|q r]].
+      * exists 3%nat. split; [lia|]. repeat constructor.
+      * exists 1%nat. split; [lia|]. repeat constructor.
+      * exists 3%nat. split; [lia|]. repeat constructor.
+    + exists 0%nat. split; [lia|]. repeat constructor.
+    + exists 0%nat. split; [lia|]. constructor.
+    + exists 0%nat. split; [lia|]. constructor.
+Qed.
+
+Lemma scan_end_ge l : forall n i, (n <= fst (scan_end n i l))%nat.
+Proof.
+  induction l as [|rb l IH]; intros n i; cbn [scan_end fst]; [lia|].
+  specialize (IH (ev_next n i (r_ev (fst rb))) (ev_ids n i (r_ev (fst rb)))). pose proof (ev_next_ge n i (r_ev (fst rb))). lia.
+Qed.
+
+Lemma ev_dim_pos d (e : sev R) : (1 <= d)%nat -> ev_ok d e -> (1 <= ev_dim d e)%nat.
+Proof. intros L K. destruct e; cbn in *; try lia. Qed.
+
+Definition stage_dims (ar : arnd R) : Prop :=
+  (1 <= length (ids_of ar) <= 5)%nat /\ length (sg_sizes (ar_stage ar)) = length (ids_of ar)
+  /\ length (sg_mig (ar_stage ar)) = length (offdiag (length (ids_of ar))).
+
+Lemma scan_ids_ok l : forall next ids d, asc 0 ids next -> length ids = d -> (1 <= d)%nat -> lok d l ->
+  Forall (fun ar => asc 0 (ids_of ar) (fst (scan_end next ids l)) /\ ids_of ar <> [] /\ stage_dims ar) (scan next ids l).
+Proof.
+  induction l as [|rb l IH]; intros next ids d A L Ld K; [constructor|]. destruct K as [K1 K2]. cbn [map fst] in *.
+  destruct K1 as (Kev & K5 & KT & Ks & Km & Kc). subst d.
+  pose proof (ev_ids_asc next ids _ A Kev) as A'. pose proof (ev_ids_len next ids _ Kev) as L'.
+  pose proof (ev_dim_pos _ _ Ld Kev) as Ld'.
+  cbn [scan scan_end]. rewrite annotate_next. change (sg_ids (ar_stage (annotate next ids rb))) with (ev_ids next ids (r_ev (fst rb))).
+  constructor.
+  - rewrite annotate_ids. split; [|split].
+    + eapply asc_weaken; [| |exact A']; [lia|apply scan_end_ge].
+    + intros E. rewrite E in L'. cbn in L'. lia.
+    + unfold stage_dims. rewrite annotate_ids. cbn [annotate ar_stage sg_sizes sg_mig]. rewrite map_length, L'. repeat split; auto; lia.
+  - eapply IH; eauto; try (rewrite L'; exact Ld').
+Qed.
+
+Lemma scan_step l : forall next ids d prev, ids_of prev = ids -> asc 0 ids next -> length ids = d -> lok d l ->
+  forall P ar nx Q, prev :: scan next ids l = P ++ ar :: nx :: Q ->
+  (exists next' rb, nx = annotate next' (ids_of ar) rb /\ asc 0 (ids_of ar) next' /\ round_ok (length (ids_of ar)) (fst rb))
+  /\ (forall id, In id (ids_of ar) -> ~ In id (ids_of nx) ->
+       Forall (fun y => Forall (fun b => ~ In id (b_anc b)) (ar_births y)) Q).
+Proof.
+  induction l as [|rb l IH]; intros next ids d prev Ep A L K P ar nx Q E.
+  - exfalso. destruct P as [|p [|q P]]; discriminate.
+  - pose proof K as K0. destruct K as [K1 K2]. cbn [map fst] in *. pose proof K1 as Kr. destruct K1 as (Kev & K1). subst d.
+    pose proof (ev_ids_asc next ids _ A Kev) as A'. pose proof (ev_ids_len next ids _ Kev) as L'.
+    cbn [scan] in E. rewrite annotate_next in E. change (sg_ids (ar_stage (annotate next ids rb))) with (ev_ids next ids (r_ev (fst rb))) in E.
+    destruct P as [|p P].
+    + cbn [app] in E. injection E as <- <- <-. rewrite Ep. split; [eauto|].
+      intros id Hin Hni. rewrite annotate_ids in Hni.
+      pose proof (asc_In _ _ _ _ A Hin) as B. pose proof (ev_next_ge next ids (r_ev (fst rb))).
+      eapply Forall_impl; [|eapply (scan_dead l _ _ _ id A' L' K2); [lia|exact Hni]]. cbn beta. tauto.
+    + cbn [app] in E. injection E as <- E. eapply (IH _ _ _ (annotate next ids rb)); eauto.
+Qed.
+
+Section Log.
+  Variable lg : elog R.
+  Hypothesis Hok : log_ok lg.
+  Let ann := annotated lg.
+
+  Lemma log_lok : lok 1 (timed (l_rounds lg)).
+  Proof. unfold lok. rewrite timed_fst. exact Hok. Qed.
+
+  Lemma log_n : n_demes lg = fst (scan_end 1 [0%nat] (timed (l_rounds lg))).
+  Proof.
+    unfold n_demes, births_of, annotated. cbn [flat_map init_ar ar_births app length]. rewrite scan_births_len.
+    pose proof (scan_end_ge (timed (l_rounds lg)) 1 [0%nat]). lia.
+  Qed.
+
+  Lemma log_facts :
+    Forall (fun ar => Forall (fun b => b_start b = a_of ar) (ar_births ar)) ann
+    /\ Forall (fun ar => asc 0 (ids_of ar) (n_demes lg) /\ ids_of ar <> []) ann
+    /\ Forall (fun ar => Forall (fun p => Fin (p_time p) = a_of ar) (ar_pulses ar)) ann
+    /\ Forall (fun ar => Forall (fun te => Fin (fst te) = a_of ar) (ar_evs ar)) ann
+    /\ Forall (fun ar => exists K, (K < 5)%nat /\ Forall (fun te => ev_kind te = K) (ar_evs ar)) ann
+    /\ Forall stage_dims ann.
+  Proof.
+    destruct (scan_starts (timed (l_rounds lg)) 1 [0%nat]) as (I1 & I2 & I3 & I4).
+    assert (A : asc 0 [0%nat] 1) by (cbn; lia).
+    pose proof (scan_ids_ok (timed (l_rounds lg)) 1 [0%nat] 1 A eq_refl (le_n 1) log_lok) as I5. rewrite <- log_n in I5.
+    unfold ann, annotated. repeat split; constructor; auto.
+    - repeat constructor.
+    - split; [|discriminate]. unfold ids_of. cbn [init_ar ar_stage sg_ids asc]. rewrite log_n.
+      pose proof (scan_end_ge (timed (l_rounds lg)) 1 [0%nat]). lia.
+    - eapply Forall_impl; [|exact I5]. cbn beta. tauto.
+    - constructor.
+    - constructor.
+    - exists 0%nat. split; [lia|constructor].
+    - unfold stage_dims. cbn. lia.
+    - eapply Forall_impl; [|exact I5]. cbn beta. tauto.
+  Qed.
+
+  Lemma log_step P ar nx Q : ann = P ++ ar :: nx :: Q ->
+    exists next rb, nx = annotate next (ids_of ar) rb /\ asc 0 (ids_of ar) next /\ round_ok (length (ids_of ar)) (fst rb).
+  Proof.
+    intros E. assert (A : asc 0 [0%nat] 1) by (cbn; lia).
+    exact (proj1 (scan_step (timed (l_rounds lg)) 1 [0%nat] 1 (init_ar lg) eq_refl A eq_refl log_lok P ar nx Q E)).
+  Qed.
+  Lemma log_gone P ar nx Q id : ann = P ++ ar :: nx :: Q -> In id (ids_of ar) -> ~ In id (ids_of nx) ->
+    Forall (fun y => Forall (fun b => ~ In id (b_anc b)) (ar_births y)) Q.
+  Proof.
+    intros E. assert (A : asc 0 [0%nat] 1) by (cbn; lia).
+    exact (proj2 (scan_step (timed (l_rounds lg)) 1 [0%nat] 1 (init_ar lg) eq_refl A eq_refl log_lok P ar nx Q E) id).
+  Qed.
+End Log.
